@@ -179,7 +179,7 @@ constraint:
 				for _, co := range c.IndexedColumns {
 					st.column(co.Column).Null = false
 				}
-				if !st.setPK(st.toIndexColumns(c.IndexedColumns)) {
+				if !st.setPK(dropRepeated(st.toIndexColumns(c.IndexedColumns))) {
 					// a key which takes over the index of an earlier UNIQUE
 					// doesn't use up a number
 					autoindex++
@@ -273,6 +273,27 @@ func (st *Schema) setPK(cols []IndexColumn) bool {
 			if len(st.Indexes) == 0 {
 				st.Indexes = nil // to make test diffs easier
 			}
+			return true
+		}
+	}
+	return false
+}
+
+// A WITHOUT ROWID table stores a column which is named more than once in its
+// PRIMARY KEY only once, at its first position.
+func dropRepeated(cols []IndexColumn) []IndexColumn {
+	var key []IndexColumn
+	for _, c := range cols {
+		if !hasKeyColumn(key, c) {
+			key = append(key, c)
+		}
+	}
+	return key
+}
+
+func hasKeyColumn(key []IndexColumn, c IndexColumn) bool {
+	for _, k := range key {
+		if sameKey([]IndexColumn{k}, []IndexColumn{c}) {
 			return true
 		}
 	}
